@@ -937,4 +937,13 @@ theorem tie_wrappers (d : String) (ns : List String) (m p : String) (pr : PatRou
   unfold ensureTrailingSlash ensureTrailingSlashBody
   cases (d.toList.getLast? == some '/') <;> rfl
 
+/-- **`HeaderOnceResponseWriter.WriteHeader`** (model `headerOnceWrite`, `engineNotFoundStatus`): nothing is written once
+a status was written; otherwise the code goes to the underlying writer and the flag is set. -/
+theorem tie_headerOnce (wrote : Bool) (code : Nat) :
+    headerOnceWriteHeaderStmts = ["if w.wroteHeader {", "return", "}", "w.w.WriteHeader(code)", "w.wroteHeader = true"] ∧
+    headerOnceWrite wrote code = (if condHeaderOnceWrote wrote then (true, none) else (true, some code)) ∧
+    engineNotFoundStmts.drop (engineNotFoundStmts.length - 4) =
+      ["cw := response.NewHeaderOnceResponseWriter(w)", "h.ServeHTTP(cw, r)", "cw.WriteHeader(http.StatusNotFound)", "}"] :=
+  ⟨rfl, rfl, rfl⟩
+
 end GoZero.C09.Tie
